@@ -166,6 +166,7 @@ class Local:
         self.a5, self.r, self.acc = a5, r, acc
         self.edges = {}
         self.nb = {}
+        self.mismatch = None
 
     def cell_edges(self, c):
         v = self.edges.get(c)
@@ -188,6 +189,13 @@ class Local:
         p = sp.unit(sp.add(m, sp.scale(t, 1e-2 * w)))
         n = self.a5.lonlat_to_cell(sp.lonlat(p), self.r)
         self.acc.n['transitions'] += 1
+        if self.r <= 12:
+            # "just beyond" at a second, ten times smaller distance must name the same neighbour
+            p2 = sp.unit(sp.add(m, sp.scale(t, 1e-3 * w)))
+            n2 = self.a5.lonlat_to_cell(sp.lonlat(p2), self.r)
+            self.acc.n['transitions'] += 1
+            if n2 != n:
+                self.mismatch = (c, i, n, n2)
         self.nb[key] = n
         return n
 
@@ -231,6 +239,10 @@ def check_seed(acc, a5, c, r, depth):
                     return
                 for i, e in enumerate(edges):
                     n = loc.neighbour(x, i)
+                    if loc.mismatch is not None:
+                        mc, mi, mn, mn2 = loc.mismatch
+                        acc.violation(f'c03:local:{mc:#x}:edge{mi}:two-distances', f'beyond edge {mi} of {mc:#x} (res {r}) lonlat_to_cell returns {mn:#x} at 1e-2 widths but {mn2:#x} at 1e-3 widths', case)
+                        return
                     if n == x:
                         acc.violation(f'c03:local:{x:#x}:edge{i}:self', f'the point just beyond edge {i} of {x:#x} (res {r}) is assigned to {x:#x} itself', case)
                         return
@@ -269,10 +281,11 @@ def check_seed(acc, a5, c, r, depth):
                     acc.violation(f'c03:local:{label}:fan{i}:no-reverse', f'walking around corner {i} of {c:#x} (res {r}): {n:#x} does not share the edge with {x:#x}', case)
                     return
                 x, ei = n, j
-                if x == c or size > 6:
+                if x == c or size > 7:
                     break
-            if x != c or size not in (3, 4, 5):
-                acc.violation(f'c03:local:{label}:fan{i}:size', f'the fan of cells around corner {i} of {c:#x} (res {r}) does not close after 3..5 cells (visited {size})', case)
+            # resolution-1 cells are triangles: six of them meet at a dodecahedron vertex (two per face), five at a face centre
+            if x != c or size not in ((3, 4, 5, 6) if r == 1 else (3, 4, 5)):
+                acc.violation(f'c03:local:{label}:fan{i}:size', f'the fan of cells around corner {i} of {c:#x} (res {r}) does not close after 3..5 cells (6 at resolution 1) (visited {size})', case)
                 return
             err = abs(total - 2 * math.pi)
             acc.maximum('fan_angle_err', err, [hex(c), i])
@@ -342,6 +355,8 @@ def run(tier, t0):
     depth = 1 if tier == 'quick' else 2
     tasks = []
     deep = []
+    for ch in common.chunks(rm.descendants((), 0) + rm.descendants((), 1), 12):
+        tasks.append(('paths', ch, 1))          # every face and every segment: neighbours via lonlat_to_cell at the two coarsest levels too
     for r in range(2, 30):
         pats = seeds.g1_patterns(r - 1, 'basic')
         for i, d in enumerate(pats):
